@@ -182,7 +182,7 @@ theorem multistore_reopen (H : Bytes → Bytes) (hH : HashOK H) (S : Tree → Pr
           t.root = lastOf (histsAfter (fun _ => []) blocks n)) ∧
       -- nothing else
       (∀ v : Int, v ≠ 0 → ¬ (1 ≤ v ∧ v ≤ blocks.length) → loadMS H s.disk names v = none) := by
-  obtain ⟨s0, h0, g0⟩ := openMS_fresh_good (H := H) S names hnd
+  obtain ⟨s0, h0, g0⟩ := openMS_fresh_good hH S hi names hnd
   obtain ⟨s, ids, hrun, g, _, hids⟩ := runMS_ids hH hi blocks _ 0 s0 g0 hb
   obtain ⟨_, ids', hrun', _, hlen⟩ := runMS_good hH hi blocks _ 0 s0 g0 hb
   rw [hrun] at hrun'; cases hrun'
